@@ -213,6 +213,48 @@ def check_pred(p, raw, rows, stats):
             raise Violation("restricted-eval-raised", f"{type(e).__name__}: {e} on row {_row(sub)} restricted to columns_required; {ctx}", exc=e)
         if bool(got) != v:
             raise Violation("restricted-eval-differs", f"iteration callable gives {got} expected {v} on {_row(sub)}; {ctx}")
+    check_subobjects(lp, ctx)
+
+
+def lib_subobjects(obj):
+    """Every expression / predicate / container object reachable from a library expression object."""
+    out = []
+    stack = [obj]
+    while stack:
+        o = stack.pop()
+        out.append(o)
+        for attr in ("args", "operands", "items"):
+            v = getattr(o, attr, None)
+            if isinstance(v, (tuple, list)):
+                stack.extend(v)
+        for attr in ("operand", "item", "container"):
+            v = getattr(o, attr, None)
+            if v is not None:
+                stack.append(v)
+    return out
+
+
+def check_subobjects(obj, ctx):
+    """After the outer object has been put to work, every object it is built from must still declare exactly the
+    columns it reads (cached column sets are shared mutable state)."""
+    from lsst.daf.relation import ColumnExpression, Predicate
+
+    for o in lib_subobjects(obj):
+        try:
+            if isinstance(o, Predicate):
+                want = set(cols_p(from_lib_p(o)))
+            elif isinstance(o, ColumnExpression):
+                from vf.core.expr import from_lib_e
+
+                want = set(cols_e(from_lib_e(o)))
+            else:
+                continue
+        except Undecodable:
+            continue
+        if set(o.columns_required) != want:
+            raise Violation(
+                "columns_required-wrong", f"sub-expression '{o}' of {ctx} declares columns_required={set(o.columns_required)} but reads {want}"
+            )
 
 
 def check_expr(e, rows, stats):
@@ -232,6 +274,7 @@ def check_expr(e, rows, stats):
             raise Violation("restricted-eval-raised", f"{type(ex).__name__}: {ex} on {_row(sub)}; {ctx}", exc=ex)
         if got != eval_e(e, r):
             raise Violation("restricted-eval-differs", f"iteration callable gives {got} expected {eval_e(e, r)} on {_row(sub)}; {ctx}")
+    check_subobjects(le, ctx)
 
 
 def _row(r):
